@@ -151,7 +151,10 @@ def run_cmd(cmd, cwd, timeout, env=None):
 
 
 CHECK_RE = re.compile(
-    r'Check \d+: ([^\n]+)\n\s*- Status: (\w+)\n\s*- Description: "([^\n]*)"\n(?:\s*- Location: ([^\n]*)\n)?')
+    r'Check \d+: ([^\n]+)\n\s*- Status: (\w+)\n\s*- Description: "(.*?)"\n(?:\s*- Location: ([^\n]*)\n|\n|Check )', re.S)
+
+
+NOT_A_RUST_FAILURE = re.compile(r'^(NaN on (division|multiplication|addition|subtraction)|floating-point exception|arithmetic overflow on floating-point)')
 
 
 def parse_kani(out):
@@ -160,7 +163,7 @@ def parse_kani(out):
     for m in CHECK_RE.finditer(out):
         name, status, desc, loc = m.groups()
         loc = loc or ''
-        desc = desc.strip('"')
+        desc = re.sub(r'\s+', ' ', desc.strip('"'))
         fn = ''
         fm = re.search(r'in function (.+)$', loc)
         if fm:
@@ -177,6 +180,11 @@ def parse_kani(out):
         if 'unwinding assertion' in desc:
             if status == 'FAILURE':
                 res['unwind_failed'].append(c)
+            continue
+        if status == 'FAILURE' and NOT_A_RUST_FAILURE.search(desc):
+            # CBMC float-model diagnostics (NaN produced by inf/inf, FE exceptions): IEEE semantics in
+            # Rust, not a panic; what the NaN does afterwards is checked by the assertions downstream
+            res.setdefault('ignored', []).append(c)
             continue
         if status == 'FAILURE':
             res['failed'].append(c)
@@ -244,7 +252,7 @@ def run_harness(crate_dir, h, scratch, playback=False):
             c['loc'] for c in res['unwind_failed'][:3])
     elif res['failed']:
         res['state'] = 'fail'
-    elif res['verdict'] == 'FAILED':
+    elif res['verdict'] == 'FAILED' and not res.get('ignored'):
         res['state'] = 'infra'
         res['why'] = 'Kani reports FAILED without a failed check'
     elif res['covers_unsat']:
@@ -395,6 +403,26 @@ def load_known():
 # property run
 # ------------------------------------------------------------------------------------------------
 
+def playback_build_check(crate_dir, scratch):
+    """Compile a crate with the cfg(verif_playback) code switched on (no solver run): catches errors in the
+    replay-printing code before a counterexample needs it."""
+    pdir = os.path.join(scratch, 'pbcheck', os.path.basename(crate_dir))
+    if os.path.exists(pdir):
+        shutil.rmtree(pdir)
+    shutil.copytree(crate_dir, pdir, ignore=shutil.ignore_patterns('target'))
+    for root, _d, fns in os.walk(os.path.join(pdir, 'src')):
+        for fn in fns:
+            p = os.path.join(root, fn)
+            t = open(p, encoding='utf-8').read()
+            if 'verif_playback' in t:
+                t = t.replace('cfg(verif_playback)', 'cfg(all())').replace('cfg!(verif_playback)', 'cfg!(all())')
+                open(p, 'w', encoding='utf-8').write(t)
+    rc, out, wall, to = run_cmd(['cargo', 'kani', 'playback', '-Z', 'concrete-playback', '--', 'no_such_test_name'], pdir, 900)
+    shutil.rmtree(pdir, ignore_errors=True)
+    errs = [l for l in out.split('\n') if l.startswith('error')]
+    return errs, out
+
+
 def tier_ok(h, tier):
     t = h.get('tier', 'quick')
     return t == 'quick' or tier == 'thorough'
@@ -423,6 +451,14 @@ def run_property(prop, tier, spec, py_jobs=None):
             for r in rec:
                 r['crate'] = c['name']
             extractions += rec
+            if os.environ.get('VERIF_CHECK_PLAYBACK'):
+                errs, pout = playback_build_check(d, scratch)
+                if errs:
+                    infra.append(f"crate {c['name']}: replay-printing code does not compile:\n" + '\n'.join(
+                        l for l in pout.split('\n') if l.startswith('error') or l.startswith('  -->') or l.startswith('   -->'))[:2500])
+                else:
+                    log(f"[{prop}] crate {c['name']}: replay-printing code compiles")
+                continue
             only = re.compile(c['only']) if c.get('only') else None
             sel = [h for h in hs if tier_ok(h, tier) and (not only or only.search(h['name']))]
             if tier == 'quick':
